@@ -80,6 +80,10 @@ class _Bad(list):
             self.append((clause, {"raised": repr(ex)[:300]}))
 
 
+SHIFT = float(2 ** 27)
+SHIFT_INV = ("r2", "r2adj", "rmse", "residuals")
+
+
 def _check_metrics(bad, M, b, expected):
     """metrics.*(y, h) against the evaluated Terms; symmetry and range clauses."""
     yv, hv = _vec(_ints(b["y"])), _vec(b["h"])
@@ -99,6 +103,13 @@ def _check_metrics(bad, M, b, expected):
                     got = float(call(y.copy(), h.copy()))
                     assert _close(got, exp), dict(info, got=got)
                 bad.guard(_clause("equals-definition", fn), eq)
+                if fn in SHIFT_INV and ty == "float64" and th == "float64":
+                    # translation invariance: the same vectors far from the origin (exactly representable) must give
+                    # the same value; exposes formulas that are algebraically equal but cancel catastrophically
+                    def eqs(call=call, y=y, h=h, info=info):
+                        got = float(call(y + SHIFT, h + SHIFT))
+                        assert numeric.close(got, exp, rel=1e-6, ab=1e-9), dict(info, got=got, shifted_by=SHIFT)
+                    bad.guard(_clause("equals-definition", fn), eqs)
 
                 def rng(call=call, y=y, h=h, info=info, fn=fn):
                     got = float(call(y.copy(), h.copy()))
@@ -147,6 +158,9 @@ def _check_line(bad, M, lf, b, expected):
                         assert _close(got, exp), dict(info, fn="linear_fit." + label, got=got, expected=exp)
                         got = float(g(pts.copy(), coef))
                         assert _close(got, exp), dict(info, fn="linear_fit." + label + "_points", got=got, expected=exp)
+                        if fn in SHIFT_INV and ty == "float64" and tc == "float":
+                            got = float(f(x.copy(), y + SHIFT, (coef[0] + SHIFT, coef[1])))
+                            assert numeric.close(got, exp, rel=1e-6, ab=1e-9), dict(info, fn="linear_fit." + label, got=got, expected=exp, shifted_by=SHIFT)
                     bad.guard(_clause("wrapper-equals-metric", fn), wr)
 
 
